@@ -19,7 +19,7 @@ def seal(ctx, req, name="sealed"):
     """spec -> Tink: TLC (Plan_AEAD.tla) turns the driver's seal requests into the ciphertexts the documented
     format prescribes. Sharded over parallel TLC processes; the output keeps the request numbers."""
     lines = [x for x in open(req).read().splitlines() if x.strip()]
-    k = max(1, min(16, len(lines) // 20))
+    k = max(1, min(16, len(lines) // 400))     # a JVM start costs ~8 CPU-s: one process per ~400 requests
     parts = [lines[i::k] for i in range(k)]
 
     def work(i):
@@ -96,7 +96,7 @@ def judge(ctx, trace, replaying=False):
         if p != trace:
             open(p, "w").write("\n".join(part) + "\n")
         # a JVM costs ~6 s before its JIT is warm: few shards for small traces
-        mi, k = ctx.validate_events("Trace_AEAD", p, timeout=2400, shards=max(2, min(16, len(part) // 800)),
+        mi, k = ctx.validate_events("Trace_AEAD", p, timeout=2400, shards=max(2, min(16, len(part) // 500)),
                                     stage="T:Trace_AEAD" + ("" if p == trace else "#%d" % c))
         for m in mi:
             m["index"] += a
